@@ -539,3 +539,24 @@ Section Pack.
 
   Definition init_state (st : list entry) : state := mkState st 0 [].
 End Pack.
+
+(* ---------- histories: any sequence of Pack / PackManifest calls on one target ---------- *)
+Record call := mkCall { c_fn : fn; c_at : str; c_opts : opts; c_now : str }.
+
+Section History.
+  Variable marshal : manifest -> str.
+  Variable H : str -> str.
+
+  (* the fault plan counts the storage operations of the whole history *)
+  Fixpoint run_calls (tc : tcfg) (fa : option nat) (s : state) (cs : list call) : state * list result :=
+    match cs with
+    | [] => (s, [])
+    | c :: rest =>
+      match pack marshal H (c_fn c) tc fa s (c_at c) (c_opts c) (c_now c) with
+      | (s1, r1) =>
+        match run_calls tc fa s1 rest with
+        | (s2, rs) => (s2, r1 :: rs)
+        end
+      end
+    end.
+End History.
